@@ -147,6 +147,25 @@ def check_history(case):
     if a1 != a2:
         raise Violation("archive", "order-dependent", "offers %r: content %r, in order %r: %r" % (
             vectors, a1, case["perm"], a2))
+    # merging into another archive (+=, extend) copies the members; afterwards the two archives are independent
+    with guard("archive"):
+        b2 = Archive(dominance=_mk_cmp(case))
+        b2 += arch
+        b3 = Archive(dominance=_mk_cmp(case))
+        b3.extend(list(arch))
+        snap2 = sorted(tuple(o.costs_signed) for o in b2)
+    if snap2 != a1 or sorted(tuple(o.costs_signed) for o in b3) != a1:
+        raise Violation("archive", "merge-content", "`empty += archive` gave %r, source holds %r" % (snap2, a1))
+    with guard("archive"):
+        m_ = len(vectors[0]) - 1
+        killer = Individual([-1.0])
+        killer.costs_signed = [-1e9] * m_ + [min((v[-1] for v in vectors), key=lambda x: (x != 0, abs(x)))]
+        arch.add(killer)            # dominates everything that was offered
+        after2 = sorted(tuple(o.costs_signed) for o in b2)
+        arch.remove(killer)
+    if after2 != snap2:
+        raise Violation("archive", "merge-aliased", "an archive filled by `+=` from another archive changed (%r -> %r) when "
+                        "something was added to the source afterwards" % (snap2, after2))
     # truncate
     t = case["trunc"]
     if t is not None:
